@@ -777,6 +777,14 @@ def read_case(s: str, M, res: Result):
     code, md, note, j = classify_read(s, M)
     if code == 0:
         res.count("read.outcome", "json-rejects" + ("(yaml accepts)" if md is not None else ""))
+        if md is not None:
+            # accepted although json.loads rejects: legitimate only when the legacy YAML loader reads the text
+            import yaml
+            try:
+                yaml.load(s, Loader=M.Loader)
+            except Exception:
+                res.mismatches.append(Mismatch("read:SnapshotMetadata.from_yaml~model", {"doc": cps(s)[:400]},
+                                               "accepted although json.loads and the YAML loader both reject the text", "rejected"))
         return [0]
     if has_float(j):
         res.count("read.outcome", "outside-model:float")
